@@ -504,7 +504,18 @@ func canonMember(fset *token.FileSet, m *Member, di *defIndex) string {
 // termsMatch compares two canonical terms of arms labelled ta and tb: type tokens
 // ⟦a⟧/⟦b⟧ match when equal or when they are the labels' own types (anti-unification:
 // a column is either constant or the label's type); accessor tokens likewise.
-func termsMatch(a, b string, ta, tb types.Type) bool {
+func termsMatch(a, b string, ta, tb types.Type) bool { return termsMatch2(a, b, ta, nil, tb, nil) }
+
+// termsMatch2 allows a second (outer) label per member: a column may be constant, the
+// inner label's type, or the outer label's type.
+func termsMatch2(a, b string, ta, oa, tb, ob types.Type) bool {
+	ona, onb, oca, ocb := "", "", "", ""
+	if t, ok := oa.(*types.Basic); ok {
+		ona, oca = t.Name(), basicCategory(t)
+	}
+	if t, ok := ob.(*types.Basic); ok {
+		onb, ocb = t.Name(), basicCategory(t)
+	}
 	na, nb := "", ""
 	ca, cb := "", ""
 	if t, ok := ta.(*types.Basic); ok {
@@ -538,6 +549,12 @@ func termsMatch(a, b string, ta, tb types.Type) bool {
 			continue
 		}
 		if open == "⟦" && wa == na && wb == nb {
+			continue
+		}
+		if open == "⟦" && ona != "" && wa == ona && wb == onb {
+			continue
+		}
+		if open == "⟪" && oca != "" && wa == oca && wb == ocb {
 			continue
 		}
 		// the component type of a complex label (float32 for complex64, float64 for complex128)
